@@ -56,9 +56,14 @@ func tcpRecordFamily(thorough bool) []string {
 	return out
 }
 
-type udpRecSpec struct{ server, batch string }
+type udpRecSpec struct {
+	server, batch string
+	busy          bool // the service is stopped while datagrams are still on their way through the relay; only the uplink figures are compared
+}
 
-func (s udpRecSpec) String() string { return "server=" + s.server + ";batch=" + s.batch }
+func (s udpRecSpec) String() string {
+	return "server=" + s.server + ";batch=" + s.batch + map[bool]string{true: ";busy=true"}[s.busy]
+}
 
 func parseUDPRec(p string) (s udpRecSpec) {
 	for _, kv := range strings.Split(p, ";") {
@@ -68,6 +73,8 @@ func parseUDPRec(p string) (s udpRecSpec) {
 			s.server = v
 		case "batch":
 			s.batch = v
+		case "busy":
+			s.busy = v == "true"
 		}
 	}
 	return
@@ -75,7 +82,11 @@ func parseUDPRec(p string) (s udpRecSpec) {
 
 func udpRecordScenario(param string) vsched.Scenario {
 	sp := parseUDPRec(param)
-	const nClients, per = 2, 2
+	const nClients = 2
+	per := 2
+	if sp.busy {
+		per = 3
+	}
 	return func() (func(), func(*vsched.Exec) (string, string)) {
 		var (
 			env      *udpenv.Env
@@ -119,6 +130,9 @@ func udpRecordScenario(param string) vsched.Scenario {
 							sent++
 						}
 					}
+					if sp.busy {
+						return // the socket stays open until the end; nobody waits for replies
+					}
 					for k := 0; k < sent; k++ {
 						_, pl, err := c.Recv(0)
 						if err != nil {
@@ -133,6 +147,7 @@ func udpRecordScenario(param string) vsched.Scenario {
 			cg.Wait()
 			env.Stop()
 			stopped = true
+			vsched.WaitIdle() // the target takes in whatever the relay had sent before it stopped
 			target.Close()
 			tg.Wait()
 			vudp.Finish()
@@ -176,6 +191,9 @@ func udpRecordScenario(param string) vsched.Scenario {
 			if upPk != wantUpPk || upBy != wantUpBy {
 				return obs, fmt.Sprintf("statistics: uplink recorded as %d packets / %d bytes, the target received %d datagrams / %d payload bytes", upPk, upBy, wantUpPk, wantUpBy)
 			}
+			if sp.busy {
+				return obs, "" // replies were not collected: nothing to compare the downlink and session figures with
+			}
 			if dnPk != wantDnPk || dnBy != wantDnBy {
 				return obs, fmt.Sprintf("statistics: downlink recorded as %d packets / %d bytes, the clients received %d datagrams / %d payload bytes", dnPk, dnBy, wantDnPk, wantDnBy)
 			}
@@ -216,7 +234,10 @@ func udpRecordFamily() []string {
 	var out []string
 	for _, sv := range []string{"none", "socks5", "ss2022", "ss2022mu", "direct"} {
 		for _, b := range []string{"no", "sendmmsg"} {
-			out = append(out, udpRecSpec{sv, b}.String())
+			out = append(out, udpRecSpec{sv, b, false}.String())
+			if sv != "socks5" && sv != "direct" {
+				out = append(out, udpRecSpec{sv, b, true}.String())
+			}
 		}
 	}
 	sort.Strings(out)
